@@ -98,6 +98,91 @@ theorem cbc_roundtrip (E D : Bytes → Bytes) (hE : BlockLen E)
       xorBytes_cancel _ _ (by simp; omega)]
     exact List.take_append_drop 16 src
 
+/-! ### the same, relativised to byte strings (`IsBytes`): what a concrete block cipher on
+bytes (AES) can actually satisfy — its behaviour on lists holding numbers ≥ 256 is irrelevant -/
+
+theorem isBytes_xorBytes : ∀ (a b : Bytes), IsBytes a → IsBytes b → IsBytes (xorBytes a b)
+  | [], _, _, _ => by simp [xorBytes, IsBytes]
+  | _ :: _, [], _, _ => by simp [xorBytes, IsBytes]
+  | x :: a, y :: b, ha, hb => by
+    have ih := isBytes_xorBytes a b (fun z hz => ha z (List.mem_cons_of_mem _ hz))
+      (fun z hz => hb z (List.mem_cons_of_mem _ hz))
+    have hx : x < 2 ^ 8 := ha x (List.mem_cons_self)
+    have hy : y < 2 ^ 8 := hb y (List.mem_cons_self)
+    intro z hz
+    simp only [xorBytes, List.zipWith_cons_cons, List.mem_cons] at hz
+    rcases hz with rfl | hz
+    · exact Nat.xor_lt_two_pow hx hy
+    · exact ih z hz
+
+theorem isBytes_take {x : Bytes} (n : Nat) (h : IsBytes x) : IsBytes (x.take n) :=
+  fun y hy => h y (List.mem_of_mem_take hy)
+
+theorem isBytes_drop {x : Bytes} (n : Nat) (h : IsBytes x) : IsBytes (x.drop n) :=
+  fun y hy => h y (List.mem_of_mem_drop hy)
+
+/-- a block cipher on BYTES maps 16-byte blocks to 16-byte blocks -/
+def BlockLenB (F : Bytes → Bytes) : Prop :=
+  ∀ x, x.length = 16 → IsBytes x → (F x).length = 16 ∧ IsBytes (F x)
+
+theorem BlockLenB_of_all {F : Bytes → Bytes} (h : BlockLen F) (hb : ∀ x, IsBytes x → IsBytes (F x)) :
+    BlockLenB F := fun x hx hxb => ⟨h x hx, hb x hxb⟩
+
+theorem cbcEncrypt_lengthB (E : Bytes → Bytes) (hE : BlockLenB E) :
+    ∀ (k : Nat) (iv src : Bytes), iv.length = 16 → IsBytes iv → src.length = 16 * k → IsBytes src →
+      (cbcEncrypt E iv src).length = src.length ∧ IsBytes (cbcEncrypt E iv src) := by
+  intro k
+  induction k with
+  | zero =>
+    intro iv src _ _ hs _
+    rw [cbcEncrypt_short E iv src (by omega)]
+    exact ⟨by simp; omega, by simp [IsBytes]⟩
+  | succ k ih =>
+    intro iv src hiv hivb hs hsb
+    rw [cbcEncrypt_step E iv src (by omega)]
+    have hx : (xorBytes (src.take 16) iv).length = 16 := by
+      rw [xorBytes_length]; simp; omega
+    have hxb := isBytes_xorBytes _ _ (isBytes_take 16 hsb) hivb
+    obtain ⟨hc, hcb⟩ := hE _ hx hxb
+    obtain ⟨hl, hlb⟩ := ih _ (src.drop 16) hc hcb (by simp; omega) (isBytes_drop 16 hsb)
+    refine ⟨?_, isBytes_append.mpr ⟨hcb, hlb⟩⟩
+    rw [List.length_append, hc, hl]
+    simp; omega
+
+/-- CBC decryption inverts CBC encryption on byte strings, for any number of blocks, for every
+`(E, D)` that is a bijection pair ON BYTE BLOCKS. -/
+theorem cbc_roundtripB (E D : Bytes → Bytes) (hE : BlockLenB E)
+    (hDE : ∀ x, x.length = 16 → IsBytes x → D (E x) = x) :
+    ∀ (k : Nat) (iv src : Bytes), iv.length = 16 → IsBytes iv → src.length = 16 * k → IsBytes src →
+      cbcDecrypt D iv (cbcEncrypt E iv src) = src := by
+  intro k
+  induction k with
+  | zero =>
+    intro iv src _ _ hs _
+    have : src = [] := List.length_eq_zero_iff.mp (by omega)
+    subst this
+    rw [cbcEncrypt_short E iv [] (by simp), cbcDecrypt_short D iv [] (by simp)]
+  | succ k ih =>
+    intro iv src hiv hivb hs hsb
+    rw [cbcEncrypt_step E iv src (by omega)]
+    have hx : (xorBytes (src.take 16) iv).length = 16 := by
+      rw [xorBytes_length]; simp; omega
+    have hxb := isBytes_xorBytes _ _ (isBytes_take 16 hsb) hivb
+    generalize hc : E (xorBytes (src.take 16) iv) = c
+    obtain ⟨hcl', hcb'⟩ := hE _ hx hxb
+    have hcl : c.length = 16 := by rw [← hc]; exact hcl'
+    have hcb : IsBytes c := by rw [← hc]; exact hcb'
+    have hrest : (src.drop 16).length = 16 * k := by simp; omega
+    have hrl := (cbcEncrypt_lengthB E hE k c (src.drop 16) hcl hcb hrest (isBytes_drop 16 hsb)).1
+    rw [cbcDecrypt_step D iv _ (by simp; omega)]
+    have htake : (c ++ cbcEncrypt E c (src.drop 16)).take 16 = c := by
+      rw [← hcl]; simp
+    have hdrop : (c ++ cbcEncrypt E c (src.drop 16)).drop 16 = cbcEncrypt E c (src.drop 16) := by
+      rw [← hcl]; simp
+    rw [htake, hdrop, ih c (src.drop 16) hcl hcb hrest (isBytes_drop 16 hsb), ← hc, hDE _ hx hxb,
+      xorBytes_cancel _ _ (by simp; omega)]
+    exact List.take_append_drop 16 src
+
 /-! ### the in-place backward loop -/
 
 theorem cbcDecrypt_append (D : Bytes → Bytes) :
